@@ -374,6 +374,13 @@ fn cmd_emit_crate(m: &BTreeMap<String, String>) {
     let ok_only = m.contains_key("ok-only");
     let with_pool = m.contains_key("with-pool");
     let no_user_ce = m.contains_key("no-user-compile-error");
+    let no_native = m.contains_key("no-native");
+    let shard: String = get(m, "shard", "0/1".to_string());
+    let (shard_k, shard_n) = shard
+        .split_once('/')
+        .and_then(|(a, b)| Some((a.parse::<usize>().ok()?, b.parse::<usize>().ok()?)))
+        .unwrap_or((0, 1));
+    let mut ordinal = 0usize;
     let out: PathBuf = get(m, "out", PathBuf::from("crate.rs"));
     let mut reqs: Vec<req::Request> = Vec::new();
     if with_pool {
@@ -394,7 +401,23 @@ fn cmd_emit_crate(m: &BTreeMap<String, String>) {
         if no_user_ce && r.item.contains("compile_error") {
             continue;
         }
-        let obs = exec::expand_and_observe(&r);
+        ordinal += 1;
+        if (ordinal - 1) % shard_n.max(1) != shard_k {
+            continue;
+        }
+        let obs = if no_native {
+            exec::Obs {
+                outcome: exec::Outcome::Ok,
+                digest: String::new(),
+                detail: String::new(),
+                n_items: 0,
+                n_impls: 0,
+                errors: vec![],
+                text: String::new(),
+            }
+        } else {
+            exec::expand_and_observe(&r)
+        };
         if ok_only && !(obs.outcome == exec::Outcome::Ok && obs.errors.is_empty() && obs.n_impls > 0) {
             continue;
         }
